@@ -645,8 +645,10 @@ func (v *Visitor) visit(s *df.AnalyzerState, entrypoint *df.CallNodeArg) error {
 					}
 					stack, _ = v.addNext(s, stack, cur, nextNodeWithTrace, cur.Status, df.EdgeInfo{}, seen)
 				}
-			} else if cur.ClosureTrace != nil {
-				// Flow to the matching bound variables at the make closure site from the closure trace
+			} else if cur.ClosureTrace != nil && cur.ClosureTrace.Label.ClosureSummary == graphNode.Graph() {
+				// Flow to the matching bound variables at the make closure site from the closure trace, when the
+				// closure on top of the closure trace is the one this free variable belongs to. Otherwise the context
+				// does not match and the data flows to every site where the closure is created.
 				bvs := cur.ClosureTrace.Label.BoundVars()
 				if len(bvs) == 0 {
 					panic("no bound vars")
